@@ -59,7 +59,11 @@ func main() {
 		"their workers run (udp datagrams, tcp connections, one pipelined tcp connection, a doq stream paused mid-read " +
 		"while others are served), every message checked against its own bytes and a new instance, and against the " +
 		"concurrent Lean model driven with the observed buffer identities; exchange case = UpstreamPlain.Exchange " +
-		"sequences and a tcp exchange paused mid-reply while another runs; non-trivial = the pooled buffer held non-zero " +
+		"sequences (incl. requests that fill the pooled buffer exactly) and a tcp exchange paused mid-reply while another runs; " +
+		"request case = the real packReq on a buffer full of another exchange vs req.Pack(), a zeroed buffer and the model, for every " +
+		"buffer size of a range and every request length around it; retry case = first upstream tcp connection reset mid-reply, what the " +
+		"second receives; prefix case = real packWithPrefix on an array with residue vs own bytes and the model; loopback case = " +
+		"ServerDNS started on loopback sockets, udp bursts / tcp pipelines, every received response vs a fresh sequential instance; non-trivial = the pooled buffer held non-zero " +
 		"residue beyond the end of the next message and the next message is short/inconsistent (truncated, counts exceed " +
 		"content, pointer past its end), or more than one message was in flight; distinct = distinct case texts"
 	m := hlib.StartModel(o.Model, "C06")
@@ -73,6 +77,10 @@ func main() {
 	h.burstCampaign()
 	h.exchangeCampaign()
 	h.concurrentExchangeCampaign()
+	h.requestCampaign()
+	h.retryCampaign()
+	h.prefixCampaign()
+	h.loopbackCampaign()
 
 	r.ModelOps = h.modelOps
 	r.Finish()
@@ -482,6 +490,9 @@ type opRes struct {
 	consumed int
 	residue  bool // non-zero residue beyond the end of this message
 	pickNew  bool
+	// msg is the decoded message the real code returned to its caller after
+	// giving the pooled buffer back (DoQ read mode, upstream replies).
+	msg *dns.Msg
 }
 
 func hx(b []byte) string {
@@ -702,6 +713,7 @@ func (in *inst) exec(op *opSpec) (res *opRes) {
 				res.kind = doqKind(err)
 			} else {
 				res.decode = msgText(msg)
+				res.msg = msg
 			}
 		} else {
 			qc := &fakeQUICConn{}
@@ -794,6 +806,7 @@ func (in *inst) execUpstream(op *opSpec, res *opRes) {
 	res.residue = !allZero(buf[msgEnd:])
 	resp, err := forward.VerifC06ReadValidMsg(in.ups, req, nw, fakeTCPConn{bs}, buf)
 	res.decode = msgText(resp)
+	res.msg = resp
 	res.resp = "ok"
 	if err != nil {
 		s := err.Error()
@@ -917,6 +930,21 @@ func (h *harness) runCase(cs *caseSpec, record, report bool) (sigs []string) {
 		lines = append(lines, results[i].line)
 	}
 	next, nres := cs.Next, results[len(ops)-1]
+
+	// (0) Trusted-base probe with an oracle of its own: a message handed to
+	// the caller after the pooled buffer went back (DoQ, upstream) must not
+	// change when later messages are read into that buffer (Unpack copies,
+	// nothing keeps a window of the buffer).
+	for i, res := range results[:len(ops)-1] {
+		if res.msg != nil && msgText(res.msg) != res.decode {
+			sig := ops[i].Path + "-decoded-message-changed-later"
+			sigs = append(sigs, sig)
+			if report {
+				r.Violate(sig, fmt.Sprintf("%s: message %d of the history was decoded as %q; after %d later message(s) went through the pooled buffers the same *dns.Msg reads %q",
+					ops[i].Path, i+1, clip(res.decode), len(ops)-1-i, clip(msgText(res.msg))), cs)
+			}
+		}
+	}
 
 	// (1) Property oracle: a freshly started server given only this message.
 	fresh := newInst(sz)
@@ -2312,6 +2340,17 @@ func (h *harness) exchangeCampaign() {
 			if j == k {
 				class = []int{1, 2, 3, 3, 3, 6}[rng.IntN(6)]
 			}
+			if j == k && i%5 == 0 {
+				// A request that fills the pooled buffer exactly, or leaves one
+				// byte to spare (the boundary of PackBuffer's in-place rule).
+				room := forward.VerifC06BufSize(nw)
+				if nw == forward.NetworkTCP {
+					room -= 2
+				}
+				req = reqOfLen(rng, room-rng.IntN(2))
+				class = 0
+				h.r.Count("exchange.request_at_buffer_size")
+			}
 			rep, what := mutate(rng, mustPack(genReply(rng, req)), class)
 			if len(rep) == 0 {
 				// A UDP upstream that never answers only exercises the timeout.
@@ -2331,7 +2370,11 @@ func (h *harness) exchangeCampaign() {
 		fresh := forward.NewUpstreamPlain(conf)
 		want := run(fresh, steps[k])
 		_ = fresh.Close()
-		if sentWarm != nil && sent != nil && !bytes.Equal(sentWarm, sent) {
+		if own := mustPack(steps[k].req.Copy()); sentWarm != nil && !bytes.Equal(sentWarm, own) {
+			h.r.Violate("exchange-"+string(nw)+"-request-carries-residue", fmt.Sprintf(
+				"UpstreamPlain.Exchange over %s: after %d earlier exchange(s) the %d-byte request %s reaches the upstream as %s",
+				nw, k, len(own), clipHex(own), clipHex(sentWarm)), steps)
+		} else if sentWarm != nil && sent != nil && !bytes.Equal(sentWarm, sent) {
 			h.r.Violate("exchange-"+string(nw)+"-request-carries-residue", fmt.Sprintf(
 				"UpstreamPlain.Exchange over %s: after %d earlier exchange(s) the request written to the upstream is %s, a new UpstreamPlain writes %s",
 				nw, k, clipHex(sentWarm), clipHex(sent)), steps)
